@@ -241,6 +241,7 @@ func Run(c *engine.Ctx) {
 	c.Cov["rule"] = "every assignment of {answers, refuses, closes early, silent, KRB-ERROR, too-big (UDP) / partial reply (TCP)} to each (KDC, transport) endpoint for 1-3 KDCs (36 + 1,296 + 46,656) x udp_preference_limit {1, below the request size, above it} x every outcome of the random server order (all for 1-2 KDCs; default order for 3 KDCs in the quick tier, all 36 in the thorough tier); distinct = sampled (kdcs, limit, assignment, outcome) classes; evaluations = runs of sendToKDC"
 	loginLevel(c)
 	retainedReplies(c, req)
+	sizesAndRealmNames(c, req)
 }
 
 func safeRun(f func()) (p string) {
@@ -550,4 +551,80 @@ func min(a, b int) int {
 		return a
 	}
 	return b
+}
+
+// sizesAndRealmNames: (a) replies of every size class over TCP (also after RESPONSE_TOO_BIG over UDP) are returned
+// byte for byte, with a dead KDC tried first; (b) realms whose configured name is not upper case are served like
+// any other (the name is looked up as it is written).
+func sizesAndRealmNames(c *engine.Ctx, req []byte) {
+	if client.VerifMinimal {
+		return
+	}
+	var n int64
+	for _, size := range []int{1, 2, 100, 1464, 1465, 1466, 4095, 4096, 4097, 32767, 32768, 40000, 65535, 65536, 65537, 100000, 1 << 20} {
+		for _, limit := range []int{1, 1465} {
+			vnet.Reset()
+			vclock.Set(cworld.T0)
+			vrand.Script(nil)
+			cfg := confFor(2, limit)
+			cl := client.NewWithPassword(cworld.User, cworld.Realm, "x", cfg, client.DisablePAFXFAST(true))
+			body := make([]byte, size)
+			for i := range body {
+				body[i] = byte(i*13 + i/255)
+			}
+			body[0] = 0x6b // not a KRB-ERROR
+			vnet.Register("udp", "kdc1.test.gokrb5:88", &vnet.Endpoint{Behaviour: vnet.Refuse})
+			vnet.Register("tcp", "kdc1.test.gokrb5:88", &vnet.Endpoint{Behaviour: vnet.Refuse})
+			vnet.Register("udp", "kdc2.test.gokrb5:88", &vnet.Endpoint{Behaviour: vnet.Answer, Handler: func(string, string, []byte) []byte { return krbErr(52) }})
+			vnet.Register("tcp", "kdc2.test.gokrb5:88", &vnet.Endpoint{Behaviour: vnet.Answer, Handler: func(string, string, []byte) []byte { return body }})
+			var rb []byte
+			var err error
+			pn := safeRun(func() { rb, err = cl.VerifSendToKDC(req, cworld.Realm) })
+			n++
+			rec := map[string]interface{}{"reply_bytes": size, "udp_preference_limit": limit, "kdcs": "kdc1 dead, kdc2 answers over TCP (RESPONSE_TOO_BIG over UDP)"}
+			switch {
+			case pn != "":
+				c.Violate("sizes", "panic:reply-size", map[string]interface{}{"panic": pn}, rec)
+			case err != nil:
+				c.Violate("sizes", "fails-although-a-kdc-answers:reply-size", map[string]interface{}{"err": err.Error()}, rec)
+			case !bytes.Equal(rb, body):
+				c.Violate("sizes", "reply-not-returned-intact:reply-size", map[string]interface{}{"returned_len": len(rb)}, rec)
+			default:
+				c.Distinct(fmt.Sprintf("size/%d/%d", size, limit))
+			}
+		}
+	}
+	for _, realm := range []string{"TEST.GOKRB5", "lowercase.org", "Mixed.Example.Com", "x"} {
+		for _, limit := range []int{1, 1465} {
+			vnet.Reset()
+			vclock.Set(cworld.T0)
+			vrand.Script(nil)
+			o := cworld.DefaultOpts()
+			o.NKDC, o.UDPLimit = 2, limit
+			text := strings.ReplaceAll(cworld.ConfText(o), cworld.Realm, realm)
+			cfg, err := config.NewFromString(text)
+			if err != nil {
+				engine.FailValid("config.NewFromString(valid configuration)", err)
+			}
+			cl := client.NewWithPassword(cworld.User, realm, "x", cfg, client.DisablePAFXFAST(true))
+			body := reply(1, "any")
+			for _, nw := range []string{"udp", "tcp"} {
+				vnet.Register(nw, "kdc1.test.gokrb5:88", &vnet.Endpoint{Behaviour: vnet.Refuse})
+				vnet.Register(nw, "kdc2.test.gokrb5:88", &vnet.Endpoint{Behaviour: vnet.Answer, Handler: func(string, string, []byte) []byte { return body }})
+			}
+			var rb []byte
+			pn := safeRun(func() { rb, err = cl.VerifSendToKDC(req, realm) })
+			n++
+			rec := map[string]interface{}{"realm_as_configured": realm, "udp_preference_limit": limit}
+			switch {
+			case pn != "":
+				c.Violate("realms", "panic:realm-name", map[string]interface{}{"panic": pn}, rec)
+			case err != nil || !bytes.Equal(rb, body):
+				c.Violate("realms", "fails-although-a-kdc-answers:realm-name-not-upper-case", map[string]interface{}{"err": fmt.Sprint(err)}, rec)
+			default:
+				c.Distinct("realm/" + realm)
+			}
+		}
+	}
+	c.Add("evaluations", n)
 }
